@@ -1,11 +1,12 @@
 // End-to-end ops of C04: a REAL gocql.Session on the in-memory scripted cluster (harness/memcluster).
 //
 //   skip  <fv> <logical PREPARED response> <wire1> <logical ROWS response> <wire2>
-//   skipx ...                      (model-vs-code: the page carries metadata although the driver asked to skip it)
+//   skipx ...                      (model-vs-code: rows that do not fit the metadata they are read with, tuple<> columns)
 //
 // session.Query(<unique stmt>, <one blob value>).PageState(nil).Iter(): the driver sends PREPARE (the
 // scripted node answers wire1), then EXECUTE with the skip-metadata flag (the node answers wire2);
-// conn.go executeQuery builds the Iter (prepared result metadata + the page's paging state), which is
+// conn.go executeQuery builds the Iter (prepared result metadata + the page's paging state; the page's own
+// metadata when the page carries it although the driver asked to skip it), which is
 // then drained with Iter.Scan into recorder destinations. Stream ids of the scripted frames are
 // patched to the request's stream.
 package main
@@ -175,9 +176,9 @@ func (x *runner) skipOps(v int, reps int) {
 	for i := 0; i < reps; i++ {
 		// prepared statement: one bind marker of type blob; generated result metadata with columns
 		req := &meta{mode: 'G', ks: []byte("ks"), tb: []byte("t"), cols: []colSpec{{name: []byte("p"), t: &typeDesc{kind: 'n', id: 3}}}}
-		mp := g.meta(true, false, 4)
+		mp := g.meta(true, g.r.Intn(6) == 0, 4)
 		mp.paging = nil
-		for mp.mode == 'O' || !mp.noCollClass() {
+		for mp.mode == 'O' {
 			mp = g.meta(true, false, 4)
 			mp.paging = nil
 		}
@@ -195,25 +196,31 @@ func (x *runner) skipOps(v int, reps int) {
 		}
 		class := fmt.Sprintf("skip/v%d", v)
 		op := "skip"
-		tuple0 := false
-		for _, c := range mp.cols {
-			if c.t.kind == 't' && len(c.t.sub) == 0 {
-				tuple0 = true
-			}
-		}
 		rowsM := mp
-		if g.r.Intn(8) == 0 {
-			// server ignores the skip flag and sends (different) metadata
-			page = g.meta(true, false, 4)
-			for page.mode == 'O' || !page.noCollClass() {
+		if g.r.Intn(6) == 0 {
+			// server ignores the skip flag and sends (different) metadata: the iterator must use it
+			// (C04_skip_metadata; the former finding KF-C04-5)
+			page = g.meta(true, g.r.Intn(6) == 0, 4)
+			for page.mode == 'O' {
 				page = g.meta(true, false, 4)
 			}
-			op, class = "skipx", "skipx/metadata-sent-anyway"
-			if g.r.Bool() {
-				rowsM = page
+			class += "/metadata-sent-anyway"
+			rowsM = page
+			if g.r.Intn(4) == 0 {
+				// malformed: the rows have the shape of the cached metadata, not of the page's (model-vs-code)
+				rowsM = mp
+				op, class = "skipx", "skipx/metadata-sent-anyway/rows-of-cached-shape"
 			}
-		} else if tuple0 {
-			op, class = "skipx", "skipx/tuple0"
+		}
+		// the metadata the rows are read with
+		eff := mp
+		if page.mode != 'O' {
+			eff = page
+		}
+		for _, c := range eff.cols {
+			if c.t.kind == 't' && len(c.t.sub) == 0 && op == "skip" {
+				op, class = "skipx", "skipx/tuple0"
+			}
 		}
 		rb := &body{kind: "RES", rk: "ROWS", m: page, rows: g.rowsFor(rowsM, 4)}
 		rows := g.resp(v, rb, true)
